@@ -49,6 +49,58 @@ pub struct EngineReport {
     pub per_run_logs: Vec<String>,
 }
 
+/// exit codes of a case-executing process stopped by the memory guard (main.rs memguard)
+pub const EXIT_IMMODEST_REQUEST: i32 = 86;
+pub const EXIT_FOOTPRINT: i32 = 87;
+
+/// Does the recovered case ask for an immodest allocation itself? True when its calls mention an
+/// integer literal of ten or more digits, or entropy (`random`), which is where a size operand
+/// beyond 4 GiB can come from. A giant request out of small arguments stays a violation.
+fn case_requests_immodest_size(case_text: &str) -> bool {
+    let calls = match case_text.find("\"calls\"") {
+        Some(i) => &case_text[i..],
+        None => case_text,
+    };
+    let mut run = 0;
+    for ch in calls.chars() {
+        if ch.is_ascii_digit() {
+            run += 1;
+            if run >= 10 {
+                return true;
+            }
+        } else {
+            run = 0;
+        }
+    }
+    calls.contains("random")
+}
+
+/// C08's proviso (and only C08's): a case stopped by the memory guard is outside the statement
+/// when the program itself asked for the memory. Returns the probe to count, or None if the death
+/// has to be treated like any other abort.
+fn outside_proviso(plan: &RunPlan, code: Option<i32>, cur_path: &str) -> Option<&'static str> {
+    if plan.info.prop != "C08" {
+        return None;
+    }
+    match code {
+        Some(EXIT_FOOTPRINT) => Some("probe.case_abandoned_memory_footprint_over_3GiB"),
+        Some(EXIT_IMMODEST_REQUEST) => {
+            let text = std::fs::read_to_string(cur_path).unwrap_or_default();
+            if case_requests_immodest_size(&text) {
+                Some("probe.case_abandoned_immodest_allocation_request")
+            } else {
+                None
+            }
+        }
+        _ => None,
+    }
+}
+
+fn marker_index(cur_path: &str) -> Option<u64> {
+    let mj = Json::parse(&read_marker(cur_path)).unwrap_or(Json::Null);
+    mj.get("index").and_then(|x| x.int()).map(|x| x as u64)
+}
+
 fn exe() -> std::path::PathBuf {
     std::env::current_exe().expect("current_exe")
 }
@@ -75,9 +127,15 @@ struct Slot {
     last_marker: String,
     last_change: Instant,
     serial: usize,
+    /// indices of this range that were abandoned as outside the proviso (the range is re-run without them)
+    skip: Vec<u64>,
 }
 
 fn spawn_shard(plan: &RunPlan, work: &str, serial: usize, from: u64, to: u64) -> Slot {
+    spawn_shard_skipping(plan, work, serial, from, to, Vec::new())
+}
+
+fn spawn_shard_skipping(plan: &RunPlan, work: &str, serial: usize, from: u64, to: u64, skip: Vec<u64>) -> Slot {
     let cur = format!("{}/shard-{}.cur", work, serial);
     let out = format!("{}/shard-{}.out", work, serial);
     let _ = std::fs::remove_file(&out);
@@ -97,12 +155,15 @@ fn spawn_shard(plan: &RunPlan, work: &str, serial: usize, from: u64, to: u64) ->
     if let Some(m) = plan.max_secs {
         cmd.arg("--max-secs").arg(format!("{}", m));
     }
+    if !skip.is_empty() {
+        cmd.arg("--skip").arg(skip.iter().map(|x| x.to_string()).collect::<Vec<_>>().join(","));
+    }
     if plan.per_run_log {
         cmd.arg("--per-run-log").arg(format!("{}/shard-{}.runs", work, serial));
     }
     cmd.stdin(Stdio::null()).stdout(Stdio::null()).stderr(Stdio::null());
     let child = cmd.spawn().expect("spawn shard");
-    Slot { child, from, to, cur, out, last_marker: String::new(), last_change: Instant::now(), serial }
+    Slot { child, from, to, cur, out, last_marker: String::new(), last_change: Instant::now(), serial, skip }
 }
 
 fn read_marker(path: &str) -> String {
@@ -308,7 +369,19 @@ pub fn run_engine(plan: &RunPlan) -> EngineReport {
                     }
                 } else {
                     let how = format!("died ({:?})", st);
-                    if let Some(next) = handle_dead_shard(plan, &slot, &how, &mut rep) {
+                    if let (Some(probe), Some(index)) = (outside_proviso(plan, st.code(), &slot.cur), marker_index(&slot.cur)) {
+                        // not a violation. A dead shard's results are lost with it, so its whole range
+                        // is run again without the abandoned case (deterministic, nothing is dropped).
+                        *rep.counters.entry(probe.to_string()).or_insert(0) += 1;
+                        let mut skip = slot.skip.clone();
+                        skip.push(index);
+                        if skip.len() <= 64 {
+                            slots.push(spawn_shard_skipping(plan, &work, serial, slot.from, slot.to, skip));
+                            serial += 1;
+                        } else {
+                            rep.harness_errors.push(format!("shard {}: more than 64 cases stopped by the memory guard in one range", slot.serial));
+                        }
+                    } else if let Some(next) = handle_dead_shard(plan, &slot, &how, &mut rep) {
                         if next < slot.to && rep.violations.len() < 4 {
                             slots.push(spawn_shard(plan, &work, serial, next, slot.to));
                             serial += 1;
